@@ -20,7 +20,8 @@ class C13(flow.Spec):
             "restored => directory gone. Plus `inflight n g`: the real change handler loop is applying a remote version of n rows "
             "when the node shuts down gracefully g ms after the batch was spawned (the sequence of command/agent.rs: tripwire, "
             "the handler's handle awaited, drop_handles, pending handles awaited): what the batch committed must be in the "
-            "restored subscription (a genuine defect found here was fixed: 5d97e61). non-trivial = distinct (history, stop mode) pairs")
+            "restored subscription (a genuine defect found here was fixed: 5d97e61); `realstop`: the same on a real node started with "
+            "agent::start_with_config, for the change handler and for the buffered-apply loop (second defect fixed: 45b195e). non-trivial = distinct (history, stop mode) pairs")
     assumptions = ["no transaction commits between the removal of a subscription's handle and its cancellation (the known finding), nor after drop_handles during shutdown (exercised for the change handler's in-flight batches by `inflight`; API requests and sync sessions in flight at shutdown are not driven), nor between a restart and the restoration of the subscriptions (env_ok_b in the model)",
                    "kill = the files as they are between two commits of the subscription database (process crash; power loss / fsync behaviour is outside)",
                    "what a batch does to the matview is C11's subject"]
@@ -51,6 +52,13 @@ class C13(flow.Spec):
             combos += [(n, g) for n in (50, 200, 500, 2000, 10000) for g in (0, 2, 20, 100)]
         for n, g in combos:
             out.append(("inflight %d %d" % (n, g), {"apply-in-flight-at-shutdown"}))
+        # the same on a REAL node (start_with_config) shut down exactly like command/agent.rs:
+        # kind 0 = the change handler applies a version, kind 1 = the buffered-apply loop does
+        real = [(0, 300, 0), (1, 2000, 0), (1, 20000, 100), (0, 3000, 10)]
+        if tier != "quick":
+            real += [(k, n, g) for k in (0, 1) for n in (100, 1000, 8000) for g in (0, 5, 50, 300)]
+        for k, n, g in real:
+            out.append(("realstop %d %d %d" % (k, n, g), {"real-node-shutdown", "buffered-apply-loop" if k else "change-handler"}))
         return out
 
     def phases(self, case):
@@ -69,7 +77,7 @@ class C13(flow.Spec):
         return out
 
     def model_lines(self, case, impl_obs):
-        if case.startswith("inflight"):
+        if case.startswith(("inflight", "realstop")):
             # created, initial query, a write whose candidates arrive while draining or before, clean stop
             return ["sublife 8 CR IN TR W UN DD | ST"]
         toks = ["CR", "IN"]
@@ -102,7 +110,7 @@ class C13(flow.Spec):
         return res
 
     def agree(self, case, impl_obs, model_obs):
-        if case.startswith("inflight"):
+        if case.startswith(("inflight", "realstop")):
             f = dict(re.findall(r"(\w+)=(\S*)", impl_obs or ""))
             m = dict(re.findall(r"(\w+)=(\S*)", model_obs.split(" # ")[0]))
             return f.get("meta") == m.get("meta") and f.get("restored") == m.get("restored")
@@ -131,7 +139,7 @@ class C13(flow.Spec):
 
     def failures(self, case, impl_obs):
         """[(phase index or 'final', reason)] in order"""
-        if case.startswith("inflight"):
+        if case.startswith(("inflight", "realstop")):
             f = dict(re.findall(r"(\w+)=(\S*)", impl_obs or ""))
             if "meta" not in f:
                 return [(0, "crash")]
@@ -181,7 +189,7 @@ class C13(flow.Spec):
         return False if self.failures(case, impl_obs) else None
 
     def classify(self, case, impl_obs):
-        if case.startswith("inflight"):
+        if case.startswith(("inflight", "realstop")):
             return None
         fails = self.failures(case, impl_obs)
         if not fails:
